@@ -138,8 +138,17 @@ func (c *ExecConfig) Lines() []string {
 		v = "v2"
 	}
 	ls := []string{Line("ex", "new", v, idsField(c.Order), HexList(c.Namers), B01(c.Verify), HexList(c.FileTypes))}
+	// a directory on disk has all its parents (materialise uses MkdirAll): say so explicitly
+	seenDir := map[string]bool{}
 	for _, d := range c.Dirs {
-		ls = append(ls, Line("ex", "dir", Hex(d)))
+		parts := strings.Split(d, "/")
+		for i := 1; i <= len(parts); i++ {
+			p := strings.Join(parts[:i], "/")
+			if !seenDir[p] {
+				seenDir[p] = true
+				ls = append(ls, Line("ex", "dir", Hex(p)))
+			}
+		}
 	}
 	for _, f := range c.Files {
 		ls = append(ls, Line("ex", "file", Hex(f[0]), Hex(f[1])))
@@ -311,6 +320,12 @@ func ExecProperty(impl ExecImpl, prop string, gen func(c *Ctx, v2 bool)) Propert
 				gcfg.Verify = false
 				gcfg.Files = nil
 				gcfg.Dirs = nil
+				// (the reference is what the files should contain; directories that file names mention exist there)
+				for _, g := range t.Gens {
+					if d := filepath.Dir(g.Filename); d != "." {
+						gcfg.Dirs = append(gcfg.Dirs, filepath.Join(t.Dir, d))
+					}
+				}
 				groot := materialise(&gcfg)
 				var gerr error
 				func() {
@@ -606,7 +621,9 @@ func execOracleFailures(cfg *ExecConfig, t *ExecTarget, cls string, err error, p
 				isDir = true
 			}
 		}
-		parentOK := t.Dir == "" || contains(post.dirs, filepath.Clean(t.Dir))
+		// the directory the file goes to: the target's (created by the executor) or one the file name mentions (not created)
+		parent := filepath.Dir(path)
+		parentOK := parent == "." || contains(post.dirs, parent)
 		marker := false
 		for _, h := range t.Gens {
 			if h.Filename == g.Filename {
